@@ -22,7 +22,7 @@ from vlib.dev_harness import DevHarness, payload_repr
 LEVEL = "exploration"
 TECHNIQUE = "runtime monitor: interface-level write/response log on the virtual clock checked against spacing, deadline, read-answer and skip rules"
 LEVEL_TEXT = (
-    "Generated update/read/initialize histories (quick 450, thorough 16 x 550; 4..22 events) with gaps drawn around the cooldown "
+    "Generated update/read/initialize histories (quick 450, thorough 16 x 6000; 4..22 events) with gaps drawn around the cooldown "
     "(0, 2^-6, 1/4, 1/2, cooldown-2^-6, cooldown, cooldown+2^-6, beyond, random) for cooldown in {0,.25,.5,1,2,4} x periodic_send in {0,.75,1.5,3,7} "
     "x value types x respond_to_read. Exploration: histories are sampled."
 )
@@ -322,7 +322,7 @@ def run(ctx):
     )
     ctx.require("deadline_probes", "reads_judged", "spacing_checks", "spacing_at_the_limit", "writes_periodic", "writes_update_caused",
                 "set_skippable_same_payload", "set_skip_flag_but_payload_differs", "op_init", "final_probes")
-    n = ctx.scale(450, 550 * 16)
+    n = ctx.scale(450, 6000 * 16)
     for i in range(n):
         if not ctx.mine(i):
             continue
